@@ -50,6 +50,29 @@ theorem C19_get (stack : List FsNode) (base : FsNode) (p : Bytes) (auto : Bool)
          | .error k => .osErr k) :=
   dirGet_spec stack base p auto ae sg hsafe hsg
 
+/-- Only `/` separates segments: a path without one — whatever else it contains, backslashes
+included — is ONE name, looked up as it stands in the base directory (not `.`, not `..`, at most
+255 bytes, in a base that is a directory). -/
+theorem C19_no_slash_is_one_name (stack : List FsNode) (base : FsNode) (p : Bytes)
+    (h1 : cSlash ∉ p) (h2 : p ≠ []) (h3 : p.length ≤ 255) (h4 : p ≠ [cDot]) (h5 : p ≠ kDotDot)
+    (hd : base.isDir = true) :
+    openAt stack base p =
+      (match base.lookup p with
+       | none => .error .notFound
+       | some (.blocked _) => .error .other
+       | some child => .ok (base :: stack, child)) := by
+  have hl : ¬ (p.length ≥ 4096) := by omega
+  have hne : p.isEmpty = false := by cases p <;> simp_all
+  have hl2 : ¬ (p.length > 255) := by omega
+  have hsp : splitOn cSlash p = [p] := DirLemmas.splitOn_no_sep cSlash p h1
+  unfold openAt
+  rw [hsp]
+  simp only [hne, hl, Bool.false_eq_true, if_false, walk, hd, Bool.not_true, hl2,
+    Bool.false_or, beq_iff_eq, h4, h5]
+  cases hlk : base.lookup p with
+  | none => simp
+  | some child => cases child <;> simp [walk]
+
 theorem C19_total (stack : List FsNode) (base : FsNode) (p : Bytes) (auto : Bool)
     (ae : Option Bytes) : dirGetIn stack base p auto ae ≠ .panic :=
   dirGet_total stack base p auto ae
